@@ -31,15 +31,18 @@ Proof.
 Qed.
 
 Lemma alloc_under_zero base pb mode data enc pl same tr :
-  alloc_under base pb (C27Case mode data enc pl same tr 0 0) = true.
-Proof. unfold alloc_under. cbn [c_alloc c_alloc_trunc c_data]. apply andb_true_iff. split; lia. Qed.
+  alloc_under base pb (C27Case mode data enc pl same tr 0 0 0) = true.
+Proof.
+  unfold alloc_under. cbn [c_alloc c_alloc_trunc c_alloc_inflate c_data].
+  apply andb_true_iff. split; [apply andb_true_iff; split|]; lia.
+Qed.
 
 (* ---- generic: a round-tripping value, no accepted prefix, no allocation ------------------------- *)
 
 Lemma monitor_eq_value {A} (eqb : A -> A -> bool) in_bounds hdr base pb data pl (x : A) res tr :
   option_eqb eqb res (Some x) = true ->
   existsb (prefix_must_fail hdr) tr = false ->
-  monitor_eq eqb in_bounds hdr base pb (C27Case 0 data true pl false tr 0 0) (Some x) res = 0.
+  monitor_eq eqb in_bounds hdr base pb (C27Case 0 data true pl false tr 0 0 0) (Some x) res = 0.
 Proof.
   intros R T. unfold monitor_eq. rewrite alloc_under_zero. cbn [negb c_mode c_enc_ok c_trunc_ok].
   rewrite R, T. rewrite andb_false_r. reflexivity.
@@ -47,14 +50,14 @@ Qed.
 
 Lemma monitor_eq_prefix {A} (eqb : A -> A -> bool) in_bounds base pb data pl (res : option A) :
   res = None ->
-  monitor_eq eqb in_bounds None base pb (C27Case 1 data true pl false [] 0 0) None res = 0.
+  monitor_eq eqb in_bounds None base pb (C27Case 1 data true pl false [] 0 0 0) None res = 0.
 Proof.
   intros ->. unfold monitor_eq. rewrite alloc_under_zero. reflexivity.
 Qed.
 
 Lemma monitor_eq_bytes {A} (eqb : A -> A -> bool) in_bounds hdr base pb mode data pl (res : option A) :
   2 <= mode ->
-  monitor_eq eqb in_bounds hdr base pb (C27Case mode data true pl false [] 0 0) None res = 0.
+  monitor_eq eqb in_bounds hdr base pb (C27Case mode data true pl false [] 0 0 0) None res = 0.
 Proof.
   intro M. unfold monitor_eq. rewrite alloc_under_zero. cbn [negb c_mode].
   destruct mode as [|[m|m|]]; try lia; reflexivity.
@@ -68,7 +71,7 @@ Proof. intro W. unfold res_eqb. cbn. apply veqb_refl. exact W. Qed.
 Theorem result_model_satisfies_monitor : forall b e,
   wf exchangeBatchResult b = true -> EncodeExchangeBatchResult b = Some e ->
   C27_monitor (C27Case 0 e true (PReplResult (Some b) (DecodeExchangeBatchResult e)) false
-                       (model_trunc_ok DecodeExchangeBatchResult e) 0 0) = 0.
+                       (model_trunc_ok DecodeExchangeBatchResult e) 0 0 0) = 0.
 Proof.
   intros b e W E. cbn [C27_monitor c_payload]. unfold eff_res. cbn [c_res_same]. unfold monitor_codec.
   apply monitor_eq_value.
@@ -78,7 +81,7 @@ Qed.
 
 Theorem result_prefix_satisfies_monitor : forall b e p s,
   wf exchangeBatchResult b = true -> EncodeExchangeBatchResult b = Some e -> e = p ++ s -> s <> [] ->
-  C27_monitor (C27Case 1 p true (PReplResult None (DecodeExchangeBatchResult p)) false [] 0 0) = 0.
+  C27_monitor (C27Case 1 p true (PReplResult None (DecodeExchangeBatchResult p)) false [] 0 0 0) = 0.
 Proof.
   intros b e p s W E Hp Hs. cbn [C27_monitor c_payload]. unfold eff_res. cbn [c_res_same]. unfold monitor_codec.
   apply monitor_eq_prefix. eapply result_truncation_rejected; eassumption.
@@ -86,7 +89,7 @@ Qed.
 
 Theorem result_bytes_satisfy_monitor : forall mode data,
   2 <= mode ->
-  C27_monitor (C27Case mode data true (PReplResult None (DecodeExchangeBatchResult data)) false [] 0 0) = 0.
+  C27_monitor (C27Case mode data true (PReplResult None (DecodeExchangeBatchResult data)) false [] 0 0 0) = 0.
 Proof.
   intros mode data M. cbn [C27_monitor c_payload]. unfold eff_res. cbn [c_res_same]. unfold monitor_codec.
   apply monitor_eq_bytes. exact M.
@@ -97,7 +100,7 @@ Qed.
 Theorem batch_model_satisfies_monitor : forall bits b e,
   wf (exchangeBatch (valid_of bits)) b = true -> EncodeExchangeBatch (valid_of bits) b = Some e ->
   C27_monitor (C27Case 0 e true (PReplBatch bits (Some b) (DecodeExchangeBatch (valid_of bits) e)) false
-                       (model_trunc_ok (DecodeExchangeBatch (valid_of bits)) e) 0 0) = 0.
+                       (model_trunc_ok (DecodeExchangeBatch (valid_of bits)) e) 0 0 0) = 0.
 Proof.
   intros bits b e W E. cbn [C27_monitor c_payload]. unfold eff_res. cbn [c_res_same]. unfold monitor_codec.
   apply monitor_eq_value.
@@ -108,7 +111,7 @@ Qed.
 Theorem batch_prefix_satisfies_monitor : forall bits b e p s,
   wf (exchangeBatch (valid_of bits)) b = true -> EncodeExchangeBatch (valid_of bits) b = Some e ->
   e = p ++ s -> s <> [] ->
-  C27_monitor (C27Case 1 p true (PReplBatch bits None (DecodeExchangeBatch (valid_of bits) p)) false [] 0 0) = 0.
+  C27_monitor (C27Case 1 p true (PReplBatch bits None (DecodeExchangeBatch (valid_of bits) p)) false [] 0 0 0) = 0.
 Proof.
   intros bits b e p s W E Hp Hs. cbn [C27_monitor c_payload]. unfold eff_res. cbn [c_res_same]. unfold monitor_codec.
   apply monitor_eq_prefix. eapply batch_truncation_rejected; eassumption.
@@ -125,7 +128,7 @@ Qed.
 Theorem forward_model_satisfies_monitor : forall r e,
   forward_wf r = true -> EncodeForwardRequest r = Some e ->
   C27_monitor (C27Case 0 e true (PForward (Some r) (DecodeForwardRequest e)) false
-                       (model_trunc_ok DecodeForwardRequest e) 0 0) = 0.
+                       (model_trunc_ok DecodeForwardRequest e) 0 0 0) = 0.
 Proof.
   intros r e W E. cbn [C27_monitor c_payload]. unfold eff_res. cbn [c_res_same].
   apply monitor_eq_value.
@@ -139,7 +142,7 @@ Qed.
 Theorem append_batch_model_satisfies_monitor : forall vx e,
   wf f_append_batch vx = true -> encode_frame f_append_batch vx = Some e ->
   C27_monitor (C27Case 0 e true (PChAppendBatch (Some vx) (decode_frame f_append_batch e)) false
-                       (model_trunc_ok (decode_frame f_append_batch) e) 0 0) = 0.
+                       (model_trunc_ok (decode_frame f_append_batch) e) 0 0 0) = 0.
 Proof.
   intros vx e W E. cbn [C27_monitor c_payload]. unfold eff_res. cbn [c_res_same].
   unfold monitor_frame, monitor_lossy. rewrite alloc_under_zero. cbn [negb c_mode c_enc_ok].
@@ -152,7 +155,7 @@ Qed.
 Theorem k1_witness_has_code_2 :
   exists e, encode_frame f_append_batch (k1_request true) = Some e /\
     C27_monitor (C27Case 0 e true (PChAppendBatch (Some (k1_request true)) (decode_frame f_append_batch e)) false
-                         [] 0 0) = 2.
+                         [] 0 0 0) = 2.
 Proof. eexists. split; [vm_compute; reflexivity|]. vm_compute. reflexivity. Qed.
 
 (* ---- slot FSM commands ------------------------------------------------------------------------------------------- *)
@@ -171,7 +174,7 @@ Theorem fsm_model_satisfies_monitor : forall c e,
   command_wf c = true -> encodeCommand c = Some e ->
   C27_monitor (C27Case 0 e true (PFsm (Some c) (decodeCommand e)) false
                        (model_trunc_ok (fun p => match decodeCommand p with
-                                                  | Some (CmdOther _) => None | r => r end) e) 0 0) = 0.
+                                                  | Some (CmdOther _) => None | r => r end) e) 0 0 0) = 0.
 Proof.
   intros c e W E. cbn [C27_monitor c_payload]. unfold eff_res. cbn [c_res_same].
   unfold monitor_fsm. rewrite alloc_under_zero. cbn [negb c_mode c_data c_trunc_ok].
